@@ -1,5 +1,4 @@
-"""property -> rules"""
-from model import Catalogue
+"""property -> rules, with the decided / not-decided clauses that go into the evidence."""
 import r_lifecycle as L
 import r_string as S
 import r_bound as B
@@ -14,56 +13,222 @@ import r_bracket as BR
 import r_forward as FW
 import r_flatstack as FS
 import r_codec as CD
+import r_huffman as HF
+import extras as X
 
 TRUSTED = [
-    "rustc nightly 1.97 type checker, borrow checker and MIR construction (-Zmir-opt-level=0)",
-    "std semantics: Vec::push/extend/append keep existing elements, Vec::clear empties, Vec indexing is bounds-checked, reserve/with_capacity do not change contents",
-    "effect-class table of std/crate callees in rules/core.py (reviewed against the pinned tree)",
+    "rustc nightly 1.97 type checker, borrow checker and MIR construction (-Zmir-opt-level=0 -Coverflow-checks=on)",
+    "std semantics: Vec::push/extend/append keep existing elements, Vec::clear empties, Vec/slice indexing is bounds-checked, reserve/with_capacity do not change contents, Iterator::eq/cmp are lexicographic",
+    "effect-class table of std/crate callees in rules/core.py (Appendix D of DESIGN.md, reviewed against the pinned tree)",
+    "trait-method calls are leaves classified by the trait table (assume/guarantee): each impl is checked as its own rule instance",
 ]
-
-
-def c08_todo(F, R):
-    L.r_todo(F, R, names={"clear"})
-
-
-def c19_freeze(F, R):
-    A.r_freeze(F, R, cheapest=True)
 
 
 def only(rule, names):
     def f(F, R):
         rule(F, R, only=names)
     f.serde_only = getattr(rule, "serde_only", False)
+    f.__name__ = getattr(rule, "__name__", "rule") + "_only"
     return f
 
 
+def todo(names, traits=L.TODO_TRAITS):
+    def f(F, R):
+        L.r_todo(F, R, names=names, traits=traits)
+    return f
+
+
+def c19_freeze(F, R):
+    A.r_freeze(F, R, cheapest=True)
+
+
+def c06_peel(F, R):
+    A.peel_ok(F, R)
+
+
 CS_ONLY = {"CollapseSequence"}
-
 FS_ONLY = {"FlatStack", "Iter"}
-
 CODEC_ONLY = {"CodecRegion"}
+HUFF_ONLY = {"HuffmanContainer"}
+DENSE_ONLY = {"ConsecutiveIndexPairs", "ColumnsRegion"}
+
+COMMON_ND = "value-level behaviour (element-for-element equality, arithmetic results, allocator call counts) is not decided by this family"
 
 PROPS = {
-    "C07": {"rules": [CD.r_literal_guard, CD.r_emptiness, CD.r_tags, CD.r_bitmap, only(L.r_reset, CODEC_ONLY), only(L.r_fresh, CODEC_ONLY)], "explanation": "x", "decided": [], "not_decided": []},
-    "C03": {"rules": [FS.r_pairing, FS.r_delegation, only(L.r_reset, {"FlatStack"}), only(L.r_clone, FS_ONLY), B.r_index_failstop, B.r_bound_stride_sites], "explanation": "x", "decided": [], "not_decided": []},
-    "C20": {"rules": [FW.r_forward, FW.r_sibling, FW.r_pushstorage], "explanation": "x", "decided": [], "not_decided": []},
-    "C01": {"rules": [BR.r_bracket, BR.r_reader_writer, BR.r_fanout, BR.r_columns], "explanation": "x", "decided": [], "not_decided": []},
-    "C11": {"rules": [CO.r_collapse_push, only(L.r_reset, CS_ONLY), only(L.r_fresh, CS_ONLY), only(L.r_clone, CS_ONLY), only(SD.r_serde, CS_ONLY)], "explanation": "x", "decided": [], "not_decided": []},
-    "C17": {"rules": [AL.r_cover_merge, AL.r_cover_reserve, AL.r_reserve_items_agree, AL.r_noalloc], "explanation": "x", "decided": [], "not_decided": []},
-    "C16": {"rules": [SD.r_serde], "explanation": "x", "decided": [], "not_decided": []},
-    "C14": {"rules": [O.r_onto, O.r_owned_conversions, O.r_reborrow], "explanation": "x", "decided": [], "not_decided": []},
-    "C15": {"rules": [CMP.r_cmp], "explanation": "x", "decided": [], "not_decided": []},
-    "C05": {"rules": [I.r_ovf, I.r_panic_edges, I.r_nowrite_on_reject, A.r_freeze, I.r_concat, I.r_stride_iter, B.r_bound_stride_sites, B.r_index_failstop], "explanation": "x", "decided": [], "not_decided": []},
-    "C02": {"rules": [A.r_append, A.r_freeze], "explanation": "x", "decided": [], "not_decided": []},
-    "C19": {"rules": [c19_freeze], "explanation": "x", "decided": [], "not_decided": []},
-    "C13": {"rules": [B.r_bound_readitems, B.r_index_failstop, B.r_bound_stride_sites], "explanation": "x", "decided": [], "not_decided": []},
-    "C04": {"rules": [S.r_unsafe, S.r_strwrite], "explanation": "x", "decided": [], "not_decided": []},
-    "C08": {
-        "rules": [L.r_reset, L.r_seed, c08_todo],
-        "explanation": "x",
-        "decided": [], "not_decided": [],
+    "C01": {
+        "rules": [BR.r_bracket, BR.r_reader_writer, BR.r_fanout, BR.r_columns, FW.r_forward,
+                  todo({"push", "index"}, ("Region", "Push")), X.r_iter_readitems],
+        "explanation": "Static analysis of the un-instantiated MIR of every Push/Region impl: decides the structural necessary conditions of the round trip for all instantiations and paths, not the value equality itself.",
+        "decided": [
+            "R-BRACKET: every non-forwarding push of a (start,end)/position-indexed storage returns (len before its appends, len after) resp. len-1-seed, with exactly the appends on that storage in between",
+            "R-READER: index() consumes the components push returned, in order, without arithmetic, from the storage push appended to",
+            "R-FANOUT: Option/Result/Tuple push route component i to child i to index position i and index() routes back",
+            "R-COLUMNS: cell i goes to column i, the row of cell indices goes to the row index, get(i) pairs columns[i] with index[i]",
+            "R-FORWARD: non-canonical forms forward the same value",
+            "R-ITER: read-item iterators yield start..end / zip(index, columns) in order",
+            "R-TODO: no push/index body is unconditionally diverging",
+        ],
+        "not_decided": ["element-for-element equality of values, NaN/ZST/extreme values, panics inside std", COMMON_ND],
     },
-    "C09": {"rules": [L.r_clone], "explanation": "x", "decided": [], "not_decided": []},
-    "C10": {"rules": [L.r_reserve_only, L.r_fresh, L.r_seed, L.r_todo], "explanation": "x", "decided": [], "not_decided": []},
-    "C18": {"rules": [L.r_cover_heap], "explanation": "x", "decided": [], "not_decided": []},
+    "C02": {
+        "rules": [A.r_append, A.r_freeze, CO.r_collapse_push],
+        "thorough": [X.witness("C02")],
+        "explanation": "Every body reachable from the write/reserve API (closures and local helpers included) is scanned for destructive, clearing or replacing effects on item storage; the one Vec::pop is justified by R-PEEL; the representation switches are guarded (R-GUARD).",
+        "decided": [
+            "R-APPEND: no destructive/clear/replace effect on item storage in any push/reserve path",
+            "R-PEEL: the Huffman partial-byte pop happens only when the cursor is unaligned, the byte is re-presented to the encoder and re-emitted",
+            "R-GUARD: IndexList writes smol only while chonk is empty; IndexOptimized writes strided only while nothing spilled",
+            "CollapseSequence's collapse path performs no write",
+        ],
+        "not_decided": ["that Stride's in-place state transition preserves earlier elements (value-level; C05)", "bit arithmetic of the Huffman cursor", COMMON_ND],
+    },
+    "C03": {
+        "rules": [FS.r_pairing, FS.r_delegation, only(L.r_reset, {"FlatStack"}), only(L.r_clone, FS_ONLY),
+                  B.r_index_failstop, B.r_bound_stride_sites],
+        "thorough": [X.witness("C03")],
+        "explanation": "FlatStack's pairing of region indices with the index container and its delegation table are checked on the MIR for every R and S.",
+        "decided": [
+            "R-PAIRING: in copy/extend every region.push result flows unchanged into exactly one indices.push on every path; from_iter = with_capacity + extend",
+            "R-DELEGATE / R-ITER: len, is_empty, get, iter, into_iter, Iter::next, size_hint delegate with unchanged arguments",
+            "R-RESET, R-CLONE for FlatStack and its Iter",
+            "R-BOUND: every IndexContainer::index impl ends in a bounds-checked or strictly guarded access (get(i) is fail-stop)",
+        ],
+        "not_decided": ["equality of yielded values (C01/C05)", COMMON_ND],
+    },
+    "C04": {
+        "rules": [S.r_unsafe, S.r_strwrite],
+        "thorough": [X.witness("C04")],
+        "explanation": "Program-text property: inventory of unchecked str constructions and of everything that can write StringRegion's byte region, over the type-checked crate.",
+        "decided": [
+            "R-UNSAFE: the only unchecked str construction in the crate is from_utf8_unchecked(self.inner.index(index)) in StringRegion::index; no cast produces a str",
+            "R-STRWRITE: every byte push into StringRegion.inner is str::as_bytes(..) of a string-typed item; the field is private; no method hands out &mut to it; lifecycle methods only reserve/clear/clone it; DictionaryCodec::decode returns its argument or a whole dictionary entry",
+            "compile-fail witnesses: pushing byte types into a StringRegion does not type-check",
+        ],
+        "not_decided": ["that the inner byte region returns exactly the pushed byte range (C01/C02 clauses)", "deserialising foreign data"],
+    },
+    "C05": {
+        "rules": [I.r_ovf, I.r_panic_edges, I.r_nowrite_on_reject, A.r_freeze, I.r_concat, I.r_stride_iter,
+                  B.r_bound_stride_sites, B.r_index_failstop, only(L.r_reset, {"Stride", "IndexList", "IndexOptimized"})],
+        "explanation": "Overflow-checked arithmetic is visible in MIR as Assert(Overflow) terminators; taint from pushed values is propagated through the Stride state; the representation order of the two-level containers is checked for agreement between push, index, len, is_empty, iter and clear.",
+        "decided": [
+            "R-OVF: no overflow-checked arithmetic on a pushed value in the write path (build-profile independence, no panic), except stride*(count-1) = last accepted element",
+            "R-PANIC: the only other panic edges in the write paths are usize->u64 conversions",
+            "R-NOWRITE-ON-REJECT: Stride::push writes nothing on a path that returns false",
+            "R-GUARD / R-CONCAT / R-ITER: first/second order agreement of IndexList and IndexOptimized across push, index, len, is_empty, iter, next, clear",
+            "R-BOUND: every Stride::index call site is strictly guarded by Stride::len",
+        ],
+        "not_decided": ["that the accepted progression is exactly 0, s, 2s, ... then repeats (value-level)", COMMON_ND],
+    },
+    "C06": {
+        "rules": [HF.r_refusal, HF.r_code_source, HF.r_stats_and_arms, only(BR.r_bracket, HUFF_ONLY), c06_peel,
+                  only(L.r_reset, HUFF_ONLY), FW.r_forward],
+        "explanation": "Only the structural clauses of the Huffman contract are decided; exact decoding, optimality and alphabet-size behaviour are numeric and stay undecided.",
+        "decided": [
+            "R-REFUSE: a symbol without a code reaches only a panicking unwrap, never a substitute code",
+            "R-CODE-SOURCE: merge_regions derives the code only from the arguments' summed stats; the container starts with empty stats and buffer",
+            "R-HUFF-ARMS: every canonical push counts each symbol once and stores the same symbols in the active representation",
+            "R-BRACKET / R-PEEL: bit-range bracketing of push_symbols and the peel/re-emit of the partial byte",
+            "R-RESET: default() and clear() fall back to raw storage with empty stats",
+        ],
+        "not_decided": ["exact decode at every bit alignment, code optimality, >= 1 bit per symbol (the single-symbol alphabet hangs/panics: observed, not decidable here), > 256 symbols", COMMON_ND],
+    },
+    "C07": {
+        "rules": [CD.r_literal_guard, CD.r_emptiness, CD.r_tags, CD.r_bitmap, only(L.r_reset, CODEC_ONLY),
+                  only(L.r_fresh, CODEC_ONLY)],
+        "explanation": "Reader/writer table agreement and guard placement of the dictionary codec are decided on the MIR; selection quality of the heavy hitters is not.",
+        "decided": [
+            "R-GUARD: the literal store is reachable only over an edge that saw an empty input or an unassigned first byte in the reader's table",
+            "R-BOUND: no positional read of the caller's slice without a non-empty guard",
+            "R-TAGS: tags are assigned on the bit-clear edge, both tables are written together with the same bytes and the loop's tag, one table entry per non-exhausted iteration",
+            "R-BITMAP: recording and testing the first-byte bitmap use the same word/bit functions",
+            "dictionary hit stores exactly the tag byte; CodecRegion::clear resets the codec; merge_regions builds it via Codec::new_from",
+        ],
+        "not_decided": ["heavy-hitter selection quality, Misra-Gries arithmetic", COMMON_ND],
+    },
+    "C08": {
+        "rules": [L.r_reset, L.r_seed, todo({"clear"})],
+        "explanation": "clear() of every catalogued type must reset every field to what default() constructs, on every path, and re-seed like default().",
+        "decided": ["R-RESET: every field cleared or reset to default()'s abstract value on every path", "R-SEED: post-reset seeding equals default()'s", "R-TODO"],
+        "not_decided": ["that Vec::clear empties (trusted std)", "that retained empty columns of ColumnsRegion are unobservable (argued in DESIGN.md)"],
+    },
+    "C09": {
+        "rules": [L.r_clone],
+        "explanation": "Hand-written Clone impls must copy every field from the same-named field; clone_from must update every field on every path.",
+        "decided": ["R-CLONE for every hand-written clone/clone_from (all tuple arities)"],
+        "not_decided": ["that Vec::clone_from equals clone (trusted std)"],
+    },
+    "C10": {
+        "rules": [L.r_reserve_only, L.r_fresh, L.r_seed,
+                  todo({"reserve_items", "reserve_regions", "merge_regions", "reserve", "with_capacity"})],
+        "explanation": "Reserve paths may only read/measure/reserve; merged regions are built from empty-sized constructors and seeded like default().",
+        "decided": ["R-RESERVE-ONLY", "R-FRESH", "R-SEED", "R-TODO"],
+        "not_decided": ["capacity amounts (C17)"],
+    },
+    "C11": {
+        "rules": [CO.r_collapse_push, only(L.r_reset, CS_ONLY), only(L.r_fresh, CS_ONLY), only(L.r_clone, CS_ONLY),
+                  only(SD.r_serde, CS_ONLY)],
+        "explanation": "The collapse decision and the lifecycle of last_index are path properties of one small function and five lifecycle methods.",
+        "decided": ["R-COLLAPSE: early return only on the equality-true edge against inner.index(last_index), writes nothing; otherwise one inner.push whose result is remembered and returned",
+                    "last_index is None after default/merge_regions/clear, copied by clone/clone_from, serialised"],
+        "not_decided": ["properties of the user's PartialEq (NaN-like values)"],
+    },
+    "C12": {
+        "rules": [only(BR.r_bracket, DENSE_ONLY), only(L.r_seed, DENSE_ONLY), only(L.r_reset, DENSE_ONLY),
+                  BR.r_reader_writer, BR.r_columns],
+        "explanation": "Dense indices follow from one append of the end offset per push, the seeded leading 0 and index(k) = (offsets[k], offsets[k+1]).",
+        "decided": ["R-BRACKET with seed 1 for ConsecutiveIndexPairs", "R-SEED: exactly one leading 0 in default/merge_regions/clear", "R-READER: index(k) reads offsets k and k+1 in order",
+                    "R-COLUMNS: ColumnsRegion returns the inner dense index unchanged, creates missing columns first, rows carry exactly their own index slice"],
+        "not_decided": ["that the inner region's ranges are contiguous (its own R-BRACKET instance)"],
+    },
+    "C13": {
+        "rules": [B.r_bound_readitems, B.r_index_failstop, B.r_bound_stride_sites, X.r_iter_readitems],
+        "explanation": "Every positional access into shared storage must be dominated by a strict bound of the position against the item's own extent (the linear form len() returns).",
+        "decided": ["R-BOUND for ReadSlice/ReadSliceInner/ReadColumns/ReadColumnsInner/FlatStack get", "len/is_empty agreement", "R-ITER: iteration covers start..end"],
+        "not_decided": [COMMON_ND],
+    },
+    "C14": {
+        "rules": [O.r_onto, O.r_owned_conversions, O.r_reborrow],
+        "explanation": "clone_onto must overwrite its target on every path (and force its length), reborrow is the identity, borrow_as/into_owned are built from the whole value.",
+        "decided": ["R-ONTO", "R-WHOLE", "R-REBORROW"],
+        "not_decided": ["equality of the results"],
+    },
+    "C15": {
+        "rules": [CMP.r_cmp],
+        "explanation": "Comparison impls must delegate to the matching comparator family with self/other in order in every arm.",
+        "decided": ["R-CMP for ReadSlice and Wrapped"],
+        "not_decided": ["lexicographic semantics of Iterator::cmp (trusted std), user Ord laws"],
+    },
+    "C16": {
+        "rules": [SD.r_serde],
+        "thorough": [X.witness("C16")],
+        "explanation": "The serde-derive output is ordinary MIR: every field must be handed to the serializer unconditionally and rebuilt from the input without defaults.",
+        "decided": ["R-SERDE for every type with a derived Serialize"],
+        "not_decided": ["the data format; behaviour of the copy (follows from state equality + determinism)"],
+        "assumptions": ["only meaningful in the serde feature configuration"],
+    },
+    "C17": {
+        "rules": [AL.r_cover_merge, AL.r_cover_reserve, AL.r_reserve_items_agree, AL.r_noalloc],
+        "explanation": "Pre-sizing must cover every storage field from the same-named field of the sources; push paths of non-coded regions build no temporaries and never exact-fit.",
+        "decided": ["R-COVER(merge_regions)", "R-COVER(reserve_regions)", "R-RESERVE-ITEMS", "R-NOALLOC / R-AMORTISED"],
+        "not_decided": ["the amounts themselves, allocator call counts, the O(log n) bound"],
+    },
+    "C18": {
+        "rules": [L.r_cover_heap, todo({"heap_size"})],
+        "explanation": "heap_size must forward the caller's callback to every storage field and report (len-derived, capacity-derived) in that order.",
+        "decided": ["R-COVER(heap_size)", "R-TODO"],
+        "not_decided": ["the byte lower bound against a reference model"],
+    },
+    "C19": {
+        "rules": [c19_freeze, X.r_index_types],
+        "explanation": "Cheapest-first order of the representations is a guard property; the zero-heap claim for Stride follows from its field types.",
+        "decided": ["R-GUARD: the cheap representation is attempted whenever the expensive one is still empty, and the first spill happens only after that attempt failed",
+                    "type inventory: Stride has only usize fields; IndexList stores u32 in S and u64 in L"],
+        "not_decided": ["that Stride::push accepts every strided/saturated sequence (value-level)"],
+    },
+    "C20": {
+        "rules": [FW.r_forward, FW.r_sibling, FW.r_pushstorage],
+        "explanation": "Forwarding impls pass the same value on through representation-preserving conversions; canonical impls of one region have the same effect signature.",
+        "decided": ["R-FORWARD", "R-SIBLING", "PushStorage forms are all append-class"],
+        "not_decided": ["value equality of the stored bytes"],
+    },
 }
